@@ -19,7 +19,14 @@ def tcp_frame(payload, sport=40000, dport=443, src=(10, 0, 0, 1), dst=(10, 0, 0,
     total = 20 + len(tcp)
     ip = bytes([0x45, 0, total >> 8, total & 255, 0x12, 0x34, 0x40, 0, 64, 6, 0, 0]) + bytes(src) + bytes(dst)
     eth = bytes([2, 0, 0, 0, 0, 2, 2, 0, 0, 0, 0, 1, 8, 0])
-    return (eth + ip + tcp).hex()
+    f = eth + ip + tcp
+    # what follows the IP datagram in a captured frame is link-layer trailer, not TCP payload: every other source port pads its short
+    # frames to the 60-octet Ethernet minimum (as frames received from the wire are), every third appends a 4-octet frame check sequence
+    if sport % 2 == 1 and len(f) < 60:
+        f += bytes(60 - len(f))
+    if sport % 3 == 0:
+        f += b"\xde\xad\xbe\xef"
+    return f.hex()
 
 
 SERVER_HELLO = bytes([0x16, 3, 3, 0, 42, 2, 0, 0, 38, 3, 3]) + bytes(range(32)) + bytes([0, 0x13, 0x01, 0])
